@@ -57,6 +57,36 @@ class S10(Sim):
         self.killed = None
         self.kill_count = 0
         self.kill_site = None
+        self.slow = None
+        self.slow_seen = set()
+        self.slow_count = 0
+        self.slow_released = False
+        self.slow_jump0 = 0
+
+    # ---- slow-holder slice (as in C08, for the cluster lock): the k-th critical point a handle reaches *inside a cluster-lock
+    # hold* stalls for longer than the lock timeout (300 s).  The waiting handles must fail loudly (filelock.Timeout); the lock
+    # stays the stalled holder's: nobody may take it over, whatever the marker looks like.
+    def candidates(self):
+        sh = self.scen.get("slow_holder")
+        if sh and self.slow is None:
+            for a in sorted(self.actors.values(), key=lambda x: x.idx):
+                if a.state == "waiting" and a.role == "py" and a.msg.get("k") == "io" and (a.pid, a.n) not in self.slow_seen and self.park_point(a.msg) and self.holds_lock(a, cluster_only=True):
+                    self.slow_seen.add((a.pid, a.n))
+                    self.slow_count += 1
+                    if self.slow_count == sh:
+                        self.slow = a
+                        self.slow_jump0 = self.time_jumps
+                        self.log("SLOW_HOLDER", a.top, a.host, self.point_class(a.msg))
+                        break
+        cands, sleepers = Sim.candidates(self)
+        if self.slow is not None and not self.slow_released:
+            rest = [c for c in cands if c[2] is not self.slow]
+            if self.time_jumps > self.slow_jump0 or self.slow.state == "dead" or (not rest and not sleepers):
+                self.slow_released = True
+                self.log("SLOW_HOLDER_RELEASED", self.slow.top, "time jumps", self.time_jumps - self.slow_jump0)
+            else:
+                cands = rest
+        return cands, sleepers
 
     def digest(self):
         h = {}
@@ -211,7 +241,7 @@ class S10(Sim):
             err = f"inconclusive: {e}"
         res = self.result(err)
         res.update(ops=len(self.hist), promotions=self.n_promoted, refusals=self.n_refused, overlapping_promotes=self.n_overlap, stale_attempts=self.n_stale,
-                   stale_rejected=self.n_rejected, timeouts=self.n_timeouts, steps_version_checked=self.writes_checked,
+                   stale_rejected=self.n_rejected, timeouts=self.n_timeouts, slow_holder_stalled=bool(self.slow is not None and self.time_jumps > self.slow_jump0), steps_version_checked=self.writes_checked,
                    errors=sum(1 for h in self.hist if h[2].get("outcome") == "error"), killed_handle=self.killed, kill_site=str(self.kill_site) if self.kill_site else None,
                    stale_after_kill=sum(1 for h in self.hist if self.killed and h[1].startswith("stale") and h[2].get("outcome") in ("rejected", "accepted")))
         return res
